@@ -93,6 +93,7 @@ ROOTS = ['/t/root', '/t/root/', '/', 't/root', '//t/root', '/t/root/x/..']
 KINDS = [0, 1, 2, 3]
 PINNED_DIGESTS = {'0c705014a388', '6306d55cde22'}      # ast digests of _resolve_path (pinned tree, repaired tree)
 ESCALATE: list = []
+RESOLVE_METHOD = ['_resolve_path']      # the method that raises RootEscapeError, as found by the translator
 DISAGREE: dict = {}                    # stage -> names of functions on which model and implementation disagree
 
 
@@ -127,7 +128,7 @@ def paths_of(prefix: str, kind: int, n: int, alpha: str = 'alpha') -> list[str]:
 def impl_resolve(fs, p: str) -> str:
     from srctools.filesys import RootEscapeError
     try:
-        return fs._resolve_path(p)
+        return getattr(fs, RESOLVE_METHOD[0])(p)
     except RootEscapeError:
         return '!'
 
@@ -1176,6 +1177,7 @@ def run(ck: Ck) -> None:
     ok_t = ck.translate('Containment_gen', c18_guard.translate)
     ok_t = ck.translate('FsOps_gen', c18_ops.translate) and ok_t
     side = ck.extra.get('translated', {}).get('Containment_gen', {})
+    RESOLVE_METHOD[0] = side.get('resolve_method', '_resolve_path')
     built = ok_t and ck.build(['Props/C18.vo', 'SM/PathNormEnum.vo'])
     if built:
         ck.theorems('Props/C18.v')
